@@ -45,13 +45,14 @@ func TestMain(m *testing.M) {
 // ---------------------------------------------------------------- jobs
 
 type Job struct {
-	ID    int    `json:"id"`
-	File  string `json:"file"` // base64 JSON of *pbfgen.File
-	Kind  string `json:"kind"` // "cut" or a damage class
-	Cut   int    `json:"cut"`
-	Pos   int    `json:"pos"` // block position: -1 header block, k data block
-	Arg   string `json:"arg"` // damage parameter
-	Procs int    `json:"procs"`
+	ID          int    `json:"id"`
+	File        string `json:"file"` // base64 JSON of *pbfgen.File
+	Kind        string `json:"kind"` // "cut" or a damage class
+	Cut         int    `json:"cut"`
+	Pos         int    `json:"pos"` // block position: -1 header block, k data block
+	Arg         string `json:"arg"` // damage parameter
+	Procs       int    `json:"procs"`
+	HeaderFirst bool   `json:"header_first"` // call Header() (ignoring its result) before the Scan loop
 }
 
 type Verdict struct {
@@ -120,9 +121,12 @@ func trunc(s string, n int) string {
 	return s
 }
 
-func scan(data []byte, procs int) ([]osm.Object, error) {
+func scan(data []byte, procs int, headerFirst ...bool) ([]osm.Object, error) {
 	s := osmpbf.New(context.Background(), bytes.NewReader(data), procs)
 	defer s.Close()
+	if len(headerFirst) > 0 && headerFirst[0] {
+		s.Header() // a failed Header must not turn a later Scan into a fresh start
+	}
 	var got []osm.Object
 	for s.Scan() {
 		got = append(got, s.Object())
@@ -157,7 +161,7 @@ func runJob(j *Job) Verdict {
 				boundary = true
 			}
 		}
-		got, err := scan(data, j.Procs)
+		got, err := scan(data, j.Procs, j.HeaderFirst)
 		want := prefixOf(f, complete)
 		if d := pbfgen.DiffSeq(got, want); d != "" {
 			v.Sig, v.Msg = "C06/cut-wrong-prefix", fmt.Sprintf("cut at %d of %d (complete data blocks %d): %s (err=%v)", j.Cut, len(enc.Data), complete, d, err)
@@ -180,7 +184,7 @@ func runJob(j *Job) Verdict {
 		v.OK, v.Skipped = true, skip
 		return v
 	}
-	got, err := scan(data, j.Procs)
+	got, err := scan(data, j.Procs, j.HeaderFirst)
 	want := prefixOf(f, nbefore)
 	if d := pbfgen.DiffSeq(got, want); d != "" {
 		v.Sig, v.Msg = "C06/damage-wrong-prefix/"+j.Kind, fmt.Sprintf("%s(%s) at position %d: %s (err=%v)", j.Kind, j.Arg, j.Pos, d, err)
@@ -646,7 +650,7 @@ func runJobs(jobs []Job) ([]Verdict, error) {
 }
 
 func brief(j Job) string {
-	return fmt.Sprintf("{kind:%s cut:%d pos:%d arg:%s procs:%d}", j.Kind, j.Cut, j.Pos, j.Arg, j.Procs)
+	return fmt.Sprintf("{kind:%s cut:%d pos:%d arg:%s procs:%d headerFirst:%v}", j.Kind, j.Cut, j.Pos, j.Arg, j.Procs, j.HeaderFirst)
 }
 
 // crashInOSM: the faulting goroutine's stack reaches library code before any
@@ -738,7 +742,7 @@ func buildJobs(c Case) []Job {
 		jobs = append(jobs, j)
 	}
 	for cut := 0; cut <= len(enc.Data); cut++ {
-		add(Job{Kind: "cut", Cut: cut, Procs: procsCycle[cut%len(procsCycle)]})
+		add(Job{Kind: "cut", Cut: cut, Procs: procsCycle[cut%len(procsCycle)], HeaderFirst: cut%3 == 1})
 	}
 	positions := []int{-1}
 	if c.AllPositions {
@@ -754,7 +758,7 @@ func buildJobs(c Case) []Job {
 	for _, pos := range positions {
 		for di, d := range damageClasses {
 			procs := procsCycle[(di+pos+1)%len(procsCycle)]
-			add(Job{Kind: d.Kind, Arg: d.Arg, Pos: pos, Procs: procs})
+			add(Job{Kind: d.Kind, Arg: d.Arg, Pos: pos, Procs: procs, HeaderFirst: (di+pos)%3 == 0})
 			if pos > 0 && procs != 1 {
 				// a single decoder has seen all earlier blocks: stale per-decoder
 				// state (cached iterators, buffers) can only mask damage there
@@ -823,7 +827,7 @@ func TestCutsAndDamage(t *testing.T) {
 	thorough := harness.Tier() == "thorough"
 	harness.Run(t, harness.Spec[Case]{
 		Name: "cuts-and-damage", N: 10,
-		Rule: "per generated file (1..4 small blocks, half of them 'rich' so that every damage class applies): EVERY byte offset 0..len is cut (exhaustive per file), and every damage class (oversized/negative sizes, wrong raw_size, corrupt/truncated zlib, unknown blob encoding, unknown block type, second header, unsupported required feature, missing dense columns, short/long columns, string index beyond the table in 10 places, missing string table, plain nodes) is applied at the header block and at the first and last data block (thorough: every block); decoder count cycles through {1,2,5,16}; each scan runs in a child process; oracle = exact object prefix of the intact blocks, Err()==nil iff cut on a block boundary, Err()!=nil for damage, no crash, no hang (25 s watchdog); an evaluation is one scan of one (file, cut offset) or (file, damage class, position); non-trivial = cut strictly inside a block, or any applicable damage; distinct by (file bytes, cut/damage)",
+		Rule: "per generated file (1..4 small blocks, half of them 'rich' so that every damage class applies): EVERY byte offset 0..len is cut (exhaustive per file), and every damage class (oversized/negative sizes, wrong raw_size, corrupt/truncated zlib, unknown blob encoding, unknown block type, second header, unsupported required feature, missing dense columns, short/long columns, string index beyond the table in 10 places, missing string table, plain nodes) is applied at the header block and at the first and last data block (thorough: every block); decoder count cycles through {1,2,5,16}, a third of the scans call Header() before the first Scan; each scan runs in a child process; oracle = exact object prefix of the intact blocks, Err()==nil iff cut on a block boundary, Err()!=nil for damage, no crash, no hang (25 s watchdog); an evaluation is one scan of one (file, cut offset) or (file, damage class, position); non-trivial = cut strictly inside a block, or any applicable damage; distinct by (file bytes, cut/damage)",
 		Gen: func(t *rapid.T) Case {
 			c := genCase(t)
 			c.AllPositions = thorough
